@@ -236,14 +236,20 @@ Fixpoint rd_unpacksizes (fs : list folder) : reader (list folder) := fun bs =>
   end.
 
 Fixpoint set_folder_crcs (fs : list folder) (defined : list bool) (crcs : list Z) : res (list folder) :=
+  (* folder.crc = next(crcs) if defined[idx] else None *)
   match fs with
   | [] => Ok []
   | f :: r =>
-      match defined, crcs with
-      | d :: ds, c :: cs =>
-          do r' <- set_folder_crcs r ds cs;
-          Ok (mkFolder (f_coders f) (f_bonds f) (f_packed f) (f_unpacksizes f) d (Some c) :: r')
-      | _, _ => Err EOther   (* IndexError *)
+      match defined with
+      | true :: ds =>
+          match crcs with
+          | c :: cs => do r' <- set_folder_crcs r ds cs;
+                       Ok (mkFolder (f_coders f) (f_bonds f) (f_packed f) (f_unpacksizes f) true (Some c) :: r')
+          | [] => Err EOther      (* StopIteration *)
+          end
+      | false :: ds => do r' <- set_folder_crcs r ds crcs;
+                       Ok (mkFolder (f_coders f) (f_bonds f) (f_packed f) (f_unpacksizes f) false None :: r')
+      | [] => Err EOther   (* IndexError *)
       end
   end.
 
@@ -265,7 +271,7 @@ Definition parse_unpackinfo (lim : Z) : reader (list folder) := fun bs =>
              (match pid with
               | Some 10 =>
                   do (defined, bs) <- rd_boolean lim nf true bs;
-                  do (crcs, bs) <- rd_crcs nf bs;      (* numfolders values, whatever `defined` says *)
+                  do (crcs, bs) <- rd_crcs (count_true defined) bs;      (* one value per DEFINED entry *)
                   do fs' <- set_folder_crcs fs defined crcs;
                   do (pid, bs) <- rd_pid bs;
                   Ok (fs', pid, bs)
@@ -293,11 +299,13 @@ Fixpoint rd_sub_sizes (nums : list Z) (fs : list folder) : reader (list Z) := fu
   | n :: nr =>
       do (explicit, bs) <- rd_many (n - 1) rd_number bs;
       match fs with
-      | [] => Err EOther   (* folders[i] IndexError *)
+      | [] => if 0 <? n then Err EOther else rd_sub_sizes nr [] bs   (* folders[i] IndexError *)
       | f :: fr =>
-          do total <- folder_unpack_size f;
-          do (rest, bs) <- rd_sub_sizes nr fr bs;
-          Ok (explicit ++ [total - sumZ explicit] ++ rest, bs)
+          if 0 <? n then
+            do total <- folder_unpack_size f;
+            do (rest, bs) <- rd_sub_sizes nr fr bs;
+            Ok (explicit ++ [total - sumZ explicit] ++ rest, bs)
+          else rd_sub_sizes nr fr bs       (* no implicit size for a folder without sub-streams *)
       end
   end.
 
@@ -314,8 +322,17 @@ Fixpoint sub_digest_counts (nums : list Z) (fs : list folder) : res (Z * Z) :=
       end
   end.
 
+(* expand the defined-only CRC values to one value per entry (0 where undefined) *)
+Fixpoint expand_crcs (defined : list bool) (crcs : list Z) : res (list Z) :=
+  match defined with
+  | [] => Ok []
+  | true :: ds => match crcs with c :: cs => do r <- expand_crcs ds cs; Ok (c :: r) | [] => Err EOther end
+  | false :: ds => do r <- expand_crcs ds crcs; Ok (0 :: r)
+  end.
+
 Fixpoint sub_assign_digests (lim : Z) (nums : list Z) (fs : list folder) (defined : list bool) (crcs : list Z)
   : res (list bool * list Z) :=
+  (* `crcs` is aligned with `defined` (see expand_crcs) *)
   match nums with
   | [] => Ok ([], [])
   | n :: nr =>
@@ -354,7 +371,8 @@ Definition parse_substreams (lim : Z) (fs : list folder) : reader substreams := 
      (match pid with
       | Some 10 =>
           do (defined, bs) <- rd_boolean lim ndig true bs;
-          do (crcs, bs) <- rd_crcs ndig bs;
+          do (vals, bs) <- rd_crcs (count_true defined) bs;
+          do crcs <- expand_crcs defined vals;
           do (dd, dg) <- sub_assign_digests lim nums fs defined crcs;
           do (pid, bs) <- rd_pid bs;
           Ok (dd, dg, pid, bs)
@@ -626,7 +644,8 @@ Definition write_substreams (s : substreams) : res bytes :=
              end
            else Ok []);
   do c <- (if any_true (s_digestsdefined s) then
-             do x <- wr_list (wr_fixed 4) (s_digests s);
+             (* zip(self.digests, self.digestsdefined): values of the defined entries only *)
+             do x <- wr_list (wr_fixed 4) (map fst (filter (fun p => snd p) (combine (s_digests s) (s_digestsdefined s))));
              Ok ([10] ++ wr_boolean (s_digestsdefined s) true ++ x)
            else Ok []);
   Ok ([8] ++ a ++ b ++ c ++ [0]).
